@@ -196,7 +196,9 @@ def _shortlistmergesorted(key=None, reverse=False, *iterables):
     while iterators:
         nxt = op(shortlist, **opkwargs)
         yield nxt
-        nextidx = shortlist.index(nxt)
+        # N.B., find the row that was picked by identity, an earlier entry
+        # may be equal to it and still have another key (1 == 1+0j)
+        nextidx = next(i for i, r in enumerate(shortlist) if r is nxt)
         try:
             shortlist[nextidx] = next(iterators[nextidx])
         except StopIteration:
